@@ -475,6 +475,10 @@ class DD:
             if is_symbolic(a) and c not in self.vocab and self.F.body(c) is None:
                 # a library call this engine has no model for: what it does with the value is unknown - not evidence that the
                 # decision depends on the data (only operations that inspect the bytes themselves are: comparisons, casts, indexing)
+                if c in ('std::ops::Index::index', 'std::ops::IndexMut::index_mut') or c.endswith('::get') or c.endswith('::as_slice') or c.endswith('::to_vec') or \
+                        c.endswith('::first') or c.endswith('::last') or c.endswith('::starts_with') or c.endswith('::ends_with') or c.endswith('::cmp') or c.endswith('::partial_cmp') or \
+                        c.endswith('::hash') or c.endswith('::iter'):
+                    raise DataDependence('%s: symbolic input %s passed to %s' % (body.path, sym_key(a), c))
                 raise Undecided('%s: symbolic input %s passed to unmodelled %s' % (body.path, sym_key(a), c))
         return self._call_path(c, args, asg, depth)
 
